@@ -18,7 +18,7 @@ R = {
    text="Same model and replay as C02 with the invariant LinkedOK: acceptance implies all proofs under one label are bound to one effective secret, including the side doors 'disclosure proof that discloses attribute 0' and 'issuance commitment with a second response on base R_0' reached through the public builders.",
    note="Two secrets, two keys; effective secret of an r0 commitment is decided symbolically (the resulting credential is not re-verified); 1024-bit keys.",
    tech="TLA+ free-adversary state machine + TLC exhaustive model checking; every generated attempt replayed on the real verifier"),
- "C04": dict(engine="Disclosure.tla", design="5/C04, 13",
+ "C04": dict(engine="Disclosure.tla, Builder.tla", design="5/C04, 13",
    text="TLC enumerates every credential over four value classes with up to 4 (thorough 5) attributes and every disclosure subset in the honest fragment of Disclosure.tla and checks HonestComplete; for every emitted case the library's own prover is run for both session kinds and the harness checks verification, exact key sets and values, absence of hidden values from the serialised proof and the timestamp contribution, and rejection for the other session kind.",
    note="Syntactic minimality only (no statistical hiding); 1024-bit keys; byte search only for hidden values of at least 64 bits.",
    tech="TLA+ specification of the honest prover + TLC exhaustive enumeration; every case replayed through the real prover and verifier"),
@@ -38,7 +38,7 @@ R = {
    text="NumTheory.tla states the mathematical meaning of every helper by different algorithms than the code; TLC checks cross-consistency lemmas, emits expected-result tables over exhaustive small domains that are replayed on the real helpers, and validates call records (incl. aliased-operand variants) streamed from the real code against the postconditions; random large operands are checked by the same relations in math/big and reported separately.",
    note="TLC arithmetic is 32-bit: exhaustive only for p < 2^8..2^12, n < 2^14..2^20, b <= 9..12; large operands (<= 4096 bits) are a weaker differential check against math/big.",
    tech="TLA+ mathematical definitions evaluated by TLC; tables replayed on and call records validated from the real code"),
- "C05": dict(engine="CLSig.tla", design="5/C05, 13",
+ "C05": dict(engine="CLSig.tla, CLSign.tla", design="5/C05, 13",
    text="TLC checks Sound and Complete of CLSig.tla over a forger that holds the private key (any exponent class around the toy interval, any block, keyshare contribution and key, one alteration of the checked tuple, randomisation); every emitted case is forged for real with the 1024-bit private keys and given to CLSignature.Verify, the harness deciding interval membership, primality and block equality itself; issuer signatures over random boundary-sized blocks of every length are verified before and after randomisation.",
    note="Generic-group uniqueness of representations assumed; [M]/[H(M)] and trailing zeros are equal blocks by design of the scheme; 1024-bit keys.",
    tech="TLA+ symbolic forger model + TLC exhaustive model checking; generated forgeries replayed on the real verifier"),
@@ -83,6 +83,15 @@ R = {
    note="Hash injective and signatures unforgeable in the model; chains of 3 (thorough 4) events, 2 chains under one key; toy moduli; the unserialised SignedAccumulator.Accumulator memo is clear on received messages.",
    tech="TLA+ symbolic adversary model + TLC exhaustive model checking; generated fault cases replayed on the real code"),
 }
+X = {
+ "C01": " Every case is judged in a fresh ProofD object and in one that verified an honest proof before and was overwritten field by field (the verdict must not depend on the object's history).",
+ "C04": " Builder.tla adds the caller's view of the DisclosureProofBuilder: the list of indices in any order and with repetitions, and TimestampRequestContributions asked for in every phase of the life cycle; every complete life cycle is driven through the real builder.",
+ "C05": " Every forged case is also judged in a CLSignature object that verified a genuine signature before and was overwritten in place. CLSign.tla models the issuer under every scripted random stream (SignerSound, VInRange, FirstPrime); every script is fed to SignMessageBlock through a replaced crypto/rand.Reader.",
+ "C09": " Witness.Updated is part of the model's witness and of every comparison; RevocationGen3.tla enumerates every sequence of 3 (4) applications of one shared update object to three witnesses lagging behind by different amounts, each replayed step by step.",
+ "C11": " Attacks include degenerate group elements: Cr / Cu replaced by a representative of 0 mod n and a proof built from scratch by a (possibly revoked) holder around Cr = Cu = 0 with zeros hashed (D28, repaired).",
+ "C12": " The attachment model has range proofs with commitments 0 mod n (switch NonzeroCs, D27, repaired): forge-zero cases are built for real by a prover that hashes zeros.",
+ "C08": " Every wrong-type mutation is replayed with all 12 concrete wrong values (other JSON types, fractions, negatives, non-base64, padding-only and badly padded base64).",
+}
 def main():
     props = [json.loads(l) for l in open(os.path.join(V, "properties.jsonl"))]
     commits = subprocess.run(["git", "-C", "/repo", "log", "--format=%h %s", "--grep=^verif:", "7ed9736..HEAD"], stdout=subprocess.PIPE, text=True).stdout.strip().splitlines()
@@ -104,12 +113,12 @@ def main():
                                 "evidence_file": "/verif/evidence/%s.json" % pid,
                                 "replay_cmd_template": "bin/check %s --replay {path}" % pid,
                                 "engine": r["engine"],
-                                "level_claimed": {"category": "model_checking", "text": r["text"], "design_ref": "DESIGN.md section " + r["design"]},
+                                "level_claimed": {"category": "model_checking", "text": r["text"] + X.get(pid, ""), "design_ref": "DESIGN.md section " + r["design"]},
                                 "level_note": r["note"], "technique": r["tech"]})
         else:
             m["not_applicable"].append({"property_id": pid, "reason": na_reason.get(pid, "check not built yet (build in progress, see DESIGN.md section 10)")})
     for e, ps in engines.items():
-        m["engines"].append({"name": e, "path": "/verif/spec/" + e, "serves_properties": ps, "kind_free_text": "TLA+ specification checked with TLC, bound to the Go code by the harness under /verif/harness"})
+        m["engines"].append({"name": e, "path": "/verif/spec/" + e.split(",")[0], "serves_properties": ps, "kind_free_text": "TLA+ specification checked with TLC, bound to the Go code by the harness under /verif/harness"})
     json.dump(m, open(os.path.join(V, "MANIFEST.json"), "w"), indent=1)
     print("manifest: %d checks, %d not applicable" % (len(m["checks"]), len(m["not_applicable"])))
 main()
